@@ -12,8 +12,8 @@
 From Coq Require Import String.
 From Coq Require Import List Arith Bool Lia ZArith.
 Import ListNotations.
-From YP Require Import Base.Str Term.Term Unify.Unify Engine.Deref Engine.Frame Engine.World Engine.CursorFrame
-  Engine.Isolation Engine.Slots.
+From YP Require Import Base.Str Term.Term Unify.Unify Engine.Deref Engine.Frame Engine.Db Engine.World Engine.CursorFrame
+  Engine.Isolation Engine.Footprint Engine.Slots.
 
 (* ---------------------------------------------------------------- shape of the generator operations *)
 Lemma occurs_rn f v t : occurs v (rn f t) = true -> exists k, v = f k.
@@ -51,10 +51,10 @@ Proof.
   exfalso. apply N1. apply (in_map fst) in H2. exact H2.
 Qed.
 
-Lemma cnext_shape fuel d fresh h c c' h' r nm : cnext fuel d fresh h c = (c', h', r, nm) ->
+Lemma cnext_shape fuel d fresh h c c' h' r nm d' : cnext fuel d fresh h c = (c', h', r, nm, d') ->
   cown c' = cown c /\ cargs c' = cargs c /\ hstep c h c' h'.
 Proof.
-  unfold cnext. destruct (search fuel d (unbind (ctrail c) h) fresh (cfr c) []) as [tr fr names|names|k];
+  unfold cnext. destruct (search fuel (unbind (ctrail c) h) fresh (qfid (cown c)) (mkms d (cnf c) (cfr c) [])) as [tr m|m|k m];
     intros E; inversion E; subst; clear E; cbn [cown cargs ctrail].
   - split; [reflexivity|]. split; [reflexivity|]. right. intros v t H. cbn [ctrail].
     apply in_app_or in H as [H|H]; [left; exact H|right].
@@ -71,16 +71,16 @@ Proof.
   right. intros v t H. right. split; [eapply unbind_in; eauto|eapply unbind_notin; eauto].
 Qed.
 
-Lemma cdrain_shape fresh : forall m fuel d h c acc names c' h' answers err names',
-  cdrain m fuel d fresh h c acc names = (c', h', answers, err, names') ->
+Lemma cdrain_shape fresh : forall m fuel d h c acc names c' h' answers err names' d',
+  cdrain m fuel d fresh h c acc names = (c', h', answers, err, names', d') ->
   cown c' = cown c /\ cargs c' = cargs c /\ hstep c h c' h'.
 Proof.
-  induction m as [|m IH]; intros fuel d h c acc names c' h' answers err names' E; cbn [cdrain] in E.
+  induction m as [|m IH]; intros fuel d h c acc names c' h' answers err names' d' E; cbn [cdrain] in E.
   - inversion E; subst. split; [reflexivity|]. split; [reflexivity|]. left. auto.
-  - destruct (cnext fuel d fresh h c) as [[[c1 h1] r] nm] eqn:E1.
-    destruct (cnext_shape _ _ _ _ _ _ _ _ _ E1) as [O1 [A1 S1]].
+  - destruct (cnext fuel d fresh h c) as [[[[c1 h1] r] nm] d1] eqn:E1.
+    destruct (cnext_shape _ _ _ _ _ _ _ _ _ _ E1) as [O1 [A1 S1]].
     destruct r as [vals| |k].
-    + destruct (IH _ _ _ _ _ _ _ _ _ _ _ E) as [O2 [A2 S2]].
+    + destruct (IH _ _ _ _ _ _ _ _ _ _ _ _ E) as [O2 [A2 S2]].
       split; [congruence|]. split; [congruence|]. eapply hstep_trans; eauto.
     + inversion E; subst. auto.
     + inversion E; subst. auto.
@@ -227,14 +227,14 @@ Proof.
     { intros c0 H0. rewrite Eq in H0. inversion H0; subst c0. split; [exact G|apply PQc_fresh]. }
     (* closedness of the heap for PQc c comes from R *)
     pose proof (R_sinv e h Rr) as [HC _]. specialize (HC q). unfold PQ_of in HC. rewrite Eq in HC.
-    destruct (qop_frame (PQc c) n i fuel o q e h e' h' ob So HC Hc E) as [_ [_ [_ [_ [_ [En M]]]]]].
+    destruct (qop_frame (PQc c) n i fuel o q e h e' h' ob So HC Hc E) as [_ [_ [_ [_ [En M]]]]].
     rewrite Eq in M. destruct M as [c' [Ec [G' Ow]]].
     (* the shape of the step *)
     assert (Sh : cargs c' = cargs c /\ hstep c h c' h').
     { destruct o as [nm|app nm args|nm args|nm ar rows|ov script| |q0 nm args|q0|q0|q0|ts]; try discriminate;
         inversion So; subst q0; cbn [estep] in E; rewrite Eq in E.
-      - destruct (cnext fuel (edb e) (ccell n i (cown c)) h c) as [[[c1 h1] r] nm] eqn:E1.
-        destruct (cnext_shape _ _ _ _ _ _ _ _ _ E1) as [_ [A1 S1]].
+      - destruct (cnext fuel (edb e) (ccell n i (cown c)) h c) as [[[[c1 h1] r] nm] d1] eqn:E1.
+        destruct (cnext_shape _ _ _ _ _ _ _ _ _ _ E1) as [_ [A1 S1]].
         inversion E; subst. destruct e; simpl in Ec.
         assert (c1 = c') by (apply (f_equal (aget Nat.eqb q)) in Ec; rewrite !aget_aset_eq in Ec; congruence).
         subst. auto.
@@ -242,8 +242,8 @@ Proof.
         inversion E; subst. destruct e; simpl in Ec.
         assert (c1 = c') by (apply (f_equal (aget Nat.eqb q)) in Ec; rewrite !aget_aset_eq in Ec; congruence).
         subst. auto.
-      - destruct (cdrain fuel fuel (edb e) (ccell n i (cown c)) h c [] []) as [[[[c1 h1] answers] err] nm] eqn:E1.
-        destruct (cdrain_shape _ _ _ _ _ _ _ _ _ _ _ _ _ E1) as [_ [A1 S1]].
+      - destruct (cdrain fuel fuel (edb e) (ccell n i (cown c)) h c [] []) as [[[[[c1 h1] answers] err] nm] d1] eqn:E1.
+        destruct (cdrain_shape _ _ _ _ _ _ _ _ _ _ _ _ _ _ E1) as [_ [A1 S1]].
         inversion E; subst. destruct e; simpl in Ec.
         assert (c1 = c') by (apply (f_equal (aget Nat.eqb q)) in Ec; rewrite !aget_aset_eq in Ec; congruence).
         subst. auto. }
@@ -339,16 +339,28 @@ Qed.
 
 (* the property text: from a new engine, after ANY history in which queries are started over variables that do not
    occur in the other queries held at that moment, and for ANY sequence of next / close / drain operations on
-   the slots: what is observed on slot q is what is observed when only the operations on q are run *)
-Theorem disjoint_queries_alone fuel pre ops e h bs0 q :
+   the slots: what is observed on slot q is what is observed when only the operations on q are run - provided the steps on
+   q touch only the keys K of the fact store and the steps on the other slots write only keys outside K *)
+Theorem disjoint_queries_alone_K K fuel pre ops e h bs0 q :
   hist_ok fuel pre init_engine [] -> erun n i fuel pre init_engine [] = (e, h, bs0) -> Forall qop ops ->
+  foot_ok n i K q fuel ops e h ->
   pick q ops (snd (erun n i fuel ops e h))
   = snd (erun n i fuel (filter (is_slot q) ops) e (fP (PQ_of e q) h)).
 Proof.
-  intros Ok E F.
+  intros Ok E F FO.
   assert (Rr : R e h).
   { eapply R_run; eauto. apply R_init. intros v t []. }
-  apply (same_engine_slots n i (PQ_of e) (PQ_of_disj e h Rr)); auto. apply R_sinv. exact Rr.
+  apply (same_engine_slots_K n i (PQ_of e) (PQ_of_disj e h Rr) K); auto. apply R_sinv. exact Rr.
+Qed.
+
+(* read-only queries (no step writes the fact store): every slot at once *)
+Theorem disjoint_queries_alone fuel pre ops e h bs0 q :
+  hist_ok fuel pre init_engine [] -> erun n i fuel pre init_engine [] = (e, h, bs0) -> Forall qop ops ->
+  nowrite n i fuel ops e h ->
+  pick q ops (snd (erun n i fuel ops e h))
+  = snd (erun n i fuel (filter (is_slot q) ops) e (fP (PQ_of e q) h)).
+Proof.
+  intros Ok E F NW. eapply disjoint_queries_alone_K; eauto. apply nowrite_foot. exact NW.
 Qed.
 
 End Reach.
@@ -374,18 +386,29 @@ Qed.
 (* any number of engines, ANY schedule; the operations of engine i are a history pre (queries started over variables
    not occurring in the other queries held) followed by next / close / drain operations ops, interleaved in any way
    with the operations of the other engines: what engine i observes on slot q during ops is what the slot shows when
-   it is the only one advanced, in an engine that ran alone *)
-Theorem world_disjoint_queries_alone fuel n i sched pre ops e h bs0 q : i < n ->
+   it is the only one advanced, in an engine that ran alone (footprint condition as above) *)
+Theorem world_disjoint_queries_alone_K K fuel n i sched pre ops e h bs0 q : i < n ->
   map snd (only i sched) = pre ++ ops ->
   hist_ok n i fuel pre init_engine [] -> erun n i fuel pre init_engine [] = (e, h, bs0) -> Forall qop ops ->
+  foot_ok n i K q fuel ops e h ->
   pick q ops (skipn (length pre) (proj i (snd (wrun fuel (init_world n) sched))))
   = snd (erun n i fuel (filter (is_slot q) ops) e (fP (PQ_of n i e q) h)).
 Proof.
-  intros Hi Es Ok E F.
+  intros Hi Es Ok E F FO.
   rewrite (interleave_alone_init fuel n sched i Hi), Es, erun_app, E.
   pose proof (erun_length n i fuel pre init_engine []) as L. rewrite E in L. cbn [snd] in L.
   destruct (erun n i fuel ops e h) as [[e2 h2] o2] eqn:E2. cbn [snd].
   rewrite <- L, skipn_app, Nat.sub_diag, skipn_all. cbn [skipn app].
-  pose proof (disjoint_queries_alone n i Hi fuel pre ops e h bs0 q Ok E F) as D.
+  pose proof (disjoint_queries_alone_K n i Hi K fuel pre ops e h bs0 q Ok E F FO) as D.
   rewrite E2 in D. exact D.
+Qed.
+
+Theorem world_disjoint_queries_alone fuel n i sched pre ops e h bs0 q : i < n ->
+  map snd (only i sched) = pre ++ ops ->
+  hist_ok n i fuel pre init_engine [] -> erun n i fuel pre init_engine [] = (e, h, bs0) -> Forall qop ops ->
+  nowrite n i fuel ops e h ->
+  pick q ops (skipn (length pre) (proj i (snd (wrun fuel (init_world n) sched))))
+  = snd (erun n i fuel (filter (is_slot q) ops) e (fP (PQ_of n i e q) h)).
+Proof.
+  intros Hi Es Ok E F NW. eapply world_disjoint_queries_alone_K; eauto. apply nowrite_foot. exact NW.
 Qed.
